@@ -3,11 +3,13 @@
     consistent                                    -> "true" | "false"
     fiber <status> <noUseval> <noSkip> <frame> <stackstart> <stacktop> <maxstack> {7 numbers per frame record}
                                                   -> "inv=<acc|rej> src=<acc|rej>"  (all checks = the invariant / checks of the current source)
+    function <len> <def envs> <indices...>        -> "inv=<acc|rej> src=<acc|rej>"  (acceptFunction: header count vs def, environment indices ≥ -1)
     pegrows                                       -> global flags + opcode numbers whose verifier row does not cover peg_rule
     pegverify <num_constants> <words...>          -> "acc" | "rej"   (model of the verifier in peg_unmarshal)
     verify <sc> <arity> <vararg> <nc> <nd> <ne> <hex of u32 LE words> -> error code of the janet_verify model (0 = accepted)
     vmguards                                      -> "ok" | "bad <handler:expr>..." (value-dependent dereferences of vm.c without a dominating run-time test)
     umsites                                       -> "ok" | "bad <site>..."       (read sites of marsh.c whose test does not dominate the reads)
+    umdepths                                      -> "ok" | "bad <path>;..."      (call paths between two MARSH_STACKCHECKs that add 0 to the depth counter)
     ums [<hex>]                                   -> as `um` + " L=<types of the reference table> E=<envs> D=<defs>:<done flags>" (internal state)
     ums [<hex>]                                   -> as `um` + " L=<types of the reference table> E=<envs> D=<defs>:<done flags>" (internal state)
     um [<hex>]                                    -> "acc <consumed> <type>" | "rej <class>" | "oob <site>" | "fuel"
@@ -79,6 +81,9 @@ def step (_ : Unit) (toks : List String) : Unit × String :=
     let bad := C.sites.bad ++ (if C.refChecked then [] else ["lookup[len]"]) ++ (if C.envRefChecked then [] else ["lookup_envs[index]"]) ++
       (if C.defRefChecked then [] else ["lookup_defs[index]"])
     ((), if bad.isEmpty then "ok" else "bad " ++ " ".intercalate bad)
+  | ["umdepths"] =>
+    let bad := JanetModel.Unmarsh.Bytes.cfg.inc.bad
+    ((), if bad.isEmpty then "ok" else "bad " ++ ";".intercalate (bad.map (·.replace " " "_")))
   | ["vmguards"] =>
     let bad := JanetModel.Bytecode.GuardObligations.badRows
     ((), if bad.isEmpty then "ok" else "bad " ++ " ".intercalate (bad.map (·.replace " " "")))
@@ -111,6 +116,14 @@ def step (_ : Unit) (toks : List String) : Unit × String :=
     match nc.toNat?, allNat ws with
     | some nc, some bc => ((), if JanetModel.PegVerify.pegVerify JanetModel.Gen.PegAccess.tables bc nc then "acc" else "rej")
     | _, _ => ((), "bad-op")
+  | "function" :: len :: k :: idx =>
+    -- function <len> <environments_length of the def> <environment indices of the def and its sub-defs (signed)>
+    match len.toNat?, k.toNat?, idx.mapM String.toInt? with
+    | some len, some k, some es =>
+      let inv := acceptFunction allChecks len k es
+      let src := acceptFunction JanetModel.Gen.ImageChecks.checks len k es
+      ((), s!"inv={if inv then "acc" else "rej"} src={if src then "acc" else "rej"}")
+    | _, _, _ => ((), "bad-op")
   | "fiber" :: rest =>
     -- fiber <status> <noUseval> <noSkip> <frame> <stackstart> <stacktop> <maxstack> {<entrance> <prevframe> <pcdiff> <slotcount> <bclen> <atCall> <aIsSlot>}*
     match allNat rest with
